@@ -41,6 +41,11 @@ type keyProvider struct {
 }
 
 func (p *keyProvider) provideKey(token *jwt.Token) (interface{}, error) {
+	// a key that declares its algorithm ("alg" of the JWK) only verifies tokens using that algorithm
+	if p.key.Algorithm != "" && token.Method.Alg() != p.key.Algorithm {
+		return nil, fmt.Errorf("token alg[%s] does not match key alg[%s]",
+			token.Method.Alg(), p.key.Algorithm)
+	}
 	return p.key.Key, nil
 }
 
